@@ -1,5 +1,5 @@
 (* C13 — property theorems only. *)
-From C13 Require Import Model Spec Corr Proofs ProofsRes ProofsRefine.
+From C13 Require Import Model Spec Corr Proofs ProofsRes ProofsRefine Regress.
 Open Scope N_scope.
 
 (* (1) In any package a name resolves to the package's own definition if it has one, otherwise to an
@@ -70,7 +70,8 @@ Print Assumptions C13_selfcheck_unreachable.
 
 (* (3a) general form: any package universe P (the guard only needs it to contain the packages used), any
    disjoint name sets VN / FN, any start package, any list PQ of observing packages.  The abstraction
-   relation Inv (heaps equal; every table entry of M equals the resolution of S -- for variable names in
+   relation Inv (variable heaps equal, function cells agree on home package and export flag and, for
+   live cells, the Lambda a FuncInfo refers to holds the value S has; every table entry of M equals the resolution of S -- for variable names in
    the variable table, for every name in the function table; Uses equal, Users the inverse of Uses; own
    cells carry their home package, are distinct, variables of VN are bound; every exported own cell of a
    used package is what the user resolves to) holds initially, is preserved by every guarded step, and
@@ -94,7 +95,7 @@ Theorem C13_tables_are_the_graph : forall P VN FN, disjoint_names VN FN = true -
   let m := fold_left step ops (init p0) in let s := fold_left sstep ops (sinit p0) in
   (forall p n, mem n VN = true -> vars m p n = resolve_v s p n) /\
   (forall p n, funcs m p n = resolve_f s p n) /\
-  (forall a, vheap m a = s_vheap s a) /\ (forall a, fheap m a = s_fheap s a).
+  (forall a, vheap m a = s_vheap s a) /\ (forall a, frel (fheap m a) (s_fheap s a)).
 Proof. exact tables_are_the_graph. Qed.
 Print Assumptions C13_tables_are_the_graph.
 
@@ -119,3 +120,10 @@ Theorem C13_guard_nonvacuous :
   differs ex_guarded = false /\ List.length ex_guarded = 16%nat.
 Proof. exact guarded_example. Qed.
 Print Assumptions C13_guard_nonvacuous.
+
+(* (5) regression of the model against the implementation: a history observed on the unchanged code where
+   a stale FuncInfo held by users shows the body of a LATER defun (Package.DefLambda patches the first
+   Lambda of the name in place); the model reproduces every one of its 12 x 84 observations. *)
+Theorem C13_regression_lambda_patch : check_case regress_lambda_patch = 0%N.
+Proof. exact regress_lambda_patch_ok. Qed.
+Print Assumptions C13_regression_lambda_patch.
